@@ -14,6 +14,22 @@ open Flatland.Scalar
 def yearKind : Kind := .integer true 4     -- `Integer.named('year').using(format='%04i')`
 def monthKind : Kind := .integer true 2    -- month and day: `'%02i'`
 
+/-- the member schemas of a DateYYYYMMDD: generated (`year`/`month`/`day`, padded formats) or custom
+    Integer fields given through `.of(...)` -/
+structure DateCfg where
+  ky : Kind := yearKind
+  km : Kind := monthKind
+  kd : Kind := monthKind
+  ny : Str := "year".toList
+  nm : Str := "month".toList
+  nd : Str := "day".toList
+
+def DateCfg.schema (c : DateCfg) : Flatland.C04.Schema := .date c.ky c.km c.kd
+
+/-- member schemas that are Integer fields (any sign rule, any `%0Ni` format) -/
+def DateCfg.Integers (c : DateCfg) : Prop :=
+  (∃ sg w, c.ky = .integer sg w) ∧ (∃ sg w, c.km = .integer sg w) ∧ (∃ sg w, c.kd = .integer sg w)
+
 structure DateState where
   y : SState
   m : SState
@@ -64,20 +80,19 @@ def memberFlat (E : Env) (k : Kind) (name : Str) (st : SState) (pairs : List (St
 
 /-- one operation; returns the new state and the value returned by the call (`none` for calls that
     return nothing) -/
-def DateState.step (E : Env) (s : DateState) : DateOp → Except Flatland.C04.CRaise (DateState × Option Bool)
+def DateState.step (E : Env) (c : DateCfg) (s : DateState) : DateOp → Except Flatland.C04.CRaise (DateState × Option Bool)
   | .set x =>
-    match Flatland.C04.setElem E .date s.toElem (.leaf x) with
+    match Flatland.C04.setElem E c.schema s.toElem (.leaf x) with
     | .ok out => .ok (DateState.ofElem out.elem, some out.flag)
     | .error e => .error e
   | .member i x =>
-    let k := if i = 0 then yearKind else monthKind
+    let k := if i = 0 then c.ky else if i = 1 then c.km else c.kd
     match setScalar E k x with
     | .error e => .error (.scalar e)
     | .ok r => .ok ((if i = 0 then { s with y := r.st } else if i = 1 then { s with m := r.st } else { s with d := r.st }),
                     some r.flag)
   | .setFlat pairs =>
-    match memberFlat E yearKind "year".toList s.y pairs, memberFlat E monthKind "month".toList s.m pairs,
-          memberFlat E monthKind "day".toList s.d pairs with
+    match memberFlat E c.ky c.ny s.y pairs, memberFlat E c.km c.nm s.m pairs, memberFlat E c.kd c.nd s.d pairs with
     | .ok y, .ok m, .ok d => .ok (⟨y, m, d⟩, none)
     | .error e, _, _ => .error (.scalar e)
     | _, .error e, _ => .error (.scalar e)
